@@ -67,7 +67,9 @@ def parse(
 
 def parse_file(path: Path | str) -> NixSourceCode:
     """Parse a Nix file from disk with UTF-8 decoding."""
-    path = Path(path)
+    # Anchor a relative spelling now: imports are followed lazily and must not
+    # depend on the working directory in force at lookup time.
+    path = Path(path).absolute()
     source_code = path.read_text(encoding="utf-8")
     with source_path_context(path):
         source = parse(source_code, source_path=path)
